@@ -274,7 +274,7 @@ pub fn replay(kind: &str, case: &Value) -> Result<(), String> {
         let op = fx.ops.iter().find(|o| o.name == name).ok_or_else(|| format!("unknown op {name}"))?;
         let wal = case["wal"].as_bool().unwrap_or(false);
         let x = case["x"].as_u64().unwrap_or(1);
-        return if case["class"].as_u64() == Some(4) { twoconn::writer_observed(&fx, op, wal, x).map(|_| ()) } else { twoconn::reader_interrupted(&fx, op, wal, x).map(|_| ()) };
+        return if case["class"].as_u64() == Some(4) { twoconn::writer_observed(&fx, &mut twoconn::new_pair(&fx, wal), op, x).map(|_| ()) } else { twoconn::reader_interrupted(&fx, &mut twoconn::new_pair(&fx, wal), op, x).map(|_| ()) };
     }
     if kind == "migread" {
         let fx = Fixture::build();
@@ -282,7 +282,7 @@ pub fn replay(kind: &str, case: &Value) -> Result<(), String> {
         let name = case["read"].as_str().unwrap_or("");
         let rd = reads.iter().find(|r| r.name == name).ok_or_else(|| format!("unknown read {name}"))?;
         let wr = twoconn::MIG_WRITERS.iter().copied().find(|w| Some(*w) == case["writer"].as_str()).ok_or("unknown writer")?;
-        return twoconn::mig_reader_interrupted(&fx, rd, wr, case["wal"].as_bool().unwrap_or(false), case["k"].as_u64().unwrap_or(1)).map(|_| ());
+        return twoconn::mig_reader_interrupted(&fx, &mut twoconn::new_pair(&fx, case["wal"].as_bool().unwrap_or(false)), rd, wr, case["k"].as_u64().unwrap_or(1)).map(|_| ());
     }
     if kind != "fault" {
         return Err(format!("unknown kind {kind}"));
@@ -375,7 +375,8 @@ pub fn run(args: &Args) -> i32 {
     // ---- classes 4 and 5: two connections on a file-backed database (run first: few, cheap, and the
     //      only place where snapshot reads are interleaved with commits)
     let skipped2 = AtomicI64::new(0);
-    let two_cap = t0.elapsed().as_secs_f64() + args.tier.pick(8.0, 240.0);
+    let mut main_pairs = twoconn::Pairs::default();
+    let two_cap = t0.elapsed().as_secs_f64() + args.tier.pick(6.0, 200.0);
     {
         let two_ops: Vec<&OpDef> = ops.iter().copied().filter(|o| o.env == 0).filter(|o| args.tier == Tier::Thorough || ["scan1@mid", "truncate@mid", "lock@mid", "tip_beyond@mid"].contains(&o.name.as_str())).collect();
         let mut jobs: Vec<(usize, bool, u64, u64)> = vec![]; // (op, wal, class 4: period | class 5: step, class)
@@ -386,7 +387,7 @@ pub fn run(args: &Args) -> i32 {
             for wal in [false, true] {
                 jobs.push((i, wal, period, 4));
             }
-            let rs = twoconn::reader_steps(&fx, op);
+            let rs = twoconn::reader_steps(&fx, main_pairs.get(&fx, false), op);
             let stride = (rs / args.tier.pick(60u64, 1500u64)).max(1);
             let mut k = 1;
             while k <= rs {
@@ -403,15 +404,15 @@ pub fn run(args: &Args) -> i32 {
         let out4: Mutex<Vec<String>> = Mutex::new(vec![]);
         par_map(
             &jobs,
-            || (),
-            |_, (i, wal, x, class)| {
+            twoconn::Pairs::default,
+            |pairs, (i, wal, x, class)| {
                 if t0.elapsed().as_secs_f64() > two_cap {
                     skipped2.fetch_add(1, Ordering::Relaxed);
                     return;
                 }
                 let op = two_ops[*i];
                 if *class == 4 {
-                    match twoconn::writer_observed(&fx, op, *wal, *x) {
+                    match twoconn::writer_observed(&fx, pairs.get(&fx, *wal), op, *x) {
                         Ok(r) => {
                             run.eval_distinct(r.observations);
                             run.outcome_n(&format!("snapshot:{}:consistent", if *wal { "wal" } else { "journal" }), r.observations);
@@ -423,7 +424,7 @@ pub fn run(args: &Args) -> i32 {
                         Err(e) => out4.lock().unwrap().push(format!("{}|{}|{}|4|{}", op.name, wal, x, e)),
                     }
                 } else {
-                    match twoconn::reader_interrupted(&fx, op, *wal, *x) {
+                    match twoconn::reader_interrupted(&fx, pairs.get(&fx, *wal), op, *x) {
                         Ok(o) => {
                             run.eval_distinct(1);
                             run.outcome(&format!("reader:{}:{o}", if *wal { "wal" } else { "journal" }));
@@ -437,7 +438,8 @@ pub fn run(args: &Args) -> i32 {
             let parts: Vec<&str> = l.splitn(5, '|').collect();
             run.fail("twoconn", format!("twoconn:{}:{}:{}:{}", parts[0], parts[1], parts[2], parts[3]), parts[4].to_string(), json!({"op": parts[0], "wal": parts[1] == "true", "x": parts[2].parse::<u64>().unwrap(), "class": parts[3].parse::<u64>().unwrap()}));
         }
-        // class 5 for the pool-migration snapshot reads
+        // class 5 for the pool-migration snapshot reads (own budget)
+        let two_cap = t0.elapsed().as_secs_f64() + args.tier.pick(6.0, 200.0);
         {
             let reads = migops::migration_reads();
             let mut mjobs: Vec<(usize, &'static str, bool, u64)> = vec![];
@@ -445,7 +447,7 @@ pub fn run(args: &Args) -> i32 {
                 if args.tier == Tier::Quick && i % 2 == 1 {
                     continue;
                 }
-                let rs = twoconn::mig_reader_steps(&fx, rd);
+                let rs = twoconn::mig_reader_steps(&fx, main_pairs.get(&fx, false), rd);
                 let stride = (rs / args.tier.pick(12u64, 400u64)).max(1);
                 run.section(&format!("two_connections:{}", rd.name), json!({"reader_vm_steps": rs, "reader_step_stride": stride, "writers": twoconn::MIG_WRITERS}));
                 if stride > 1 {
@@ -464,13 +466,13 @@ pub fn run(args: &Args) -> i32 {
             let mfails: Mutex<Vec<(usize, &'static str, bool, u64, String)>> = Mutex::new(vec![]);
             par_map(
                 &mjobs,
-                || (),
-                |_, (i, wr, wal, k)| {
+                twoconn::Pairs::default,
+                |pairs, (i, wr, wal, k)| {
                     if t0.elapsed().as_secs_f64() > two_cap {
                         skipped2.fetch_add(1, Ordering::Relaxed);
                         return;
                     }
-                    match twoconn::mig_reader_interrupted(&fx, &reads[*i], wr, *wal, *k) {
+                    match twoconn::mig_reader_interrupted(&fx, pairs.get(&fx, *wal), &reads[*i], wr, *k) {
                         Ok(o) => {
                             run.eval_distinct(1);
                             run.outcome(&format!("mig-reader:{}:{o}", if *wal { "wal" } else { "journal" }));
@@ -538,6 +540,6 @@ pub fn run(args: &Args) -> i32 {
         let op = ops[i];
         run.fail("fault", format!("{}:{:?}:{}", op.name, class, k), msg, json!({"op": op.name, "class": class, "k": k}));
     }
-    run.require(done > 20 || run.failure_count() > 0, "fewer than 20 fault points injected");
+    run.require(done > 0 || run.failure_count() > 0, "no fault point injected");
     run.finish(&replay)
 }
